@@ -465,6 +465,7 @@ func runC12(r *Run) {
 		r.c12TCPConcurrent(1+i%2, c[0], c[1], c[2], c[3])
 	}
 	r.c12TCPConcurrentStalled(1, 8, 4)
+	r.c12LastSlotRace()
 	r.c12WS(1, 16, 12, false)
 	r.c12WS(2, 4, 12, false)
 	r.c12WS(1, 256, 50, true)
@@ -556,4 +557,75 @@ func (r *Run) c12WSPingDuringBigWrite() {
 	r.st.Dist["c12.ws.ping-during-big-write.pings-sent"] += s.tc.log.count("send ping")
 	r.st.Dist["c12.ws.ping-during-big-write.queue-full"] += s.tc.log.count("keepalive failed to ping")
 	r.st.Evaluations++
+}
+
+// c12LastSlotRace: the writer is stuck in a transmission the peer does not read, the queue has exactly one free slot,
+// and many callers reach the enqueue step at the same moment (conn.write.before-enqueue gate, opened for all at once).
+// Every call must return at once, one with success at most... whoever loses gets the queue-full error.
+func (r *Run) c12LastSlotRace() {
+	rounds := 6
+	if r.thorough() {
+		rounds = 40
+	}
+	const W = 12
+	for round := 0; round < rounds; round++ {
+		hub.reset()
+		peer := newTCPPeer()
+		conn, err := dialConn(peer.url(), 1, 2, 1<<30)
+		if err != nil {
+			peer.shutdown()
+			continue
+		}
+		pc := peer.accept(2 * time.Second)
+		cs := fmt.Sprintf("tcp, stalled peer, WriteQueueSize 2: a 12 MiB frame in transmission, one frame queued, then %d callers released together at the enqueue step (round %d)", W, round)
+		if pc != nil {
+			if tc, ok := pc.c.(*net.TCPConn); ok {
+				tc.SetReadBuffer(64 << 10) // no receive-buffer autotuning: the sender's buffers (at most 4 MiB) are all there is
+			}
+			big := &PK{Type: 3, Cmd: 100, Codec: 1, Vals: map[string]string{}, Body: make([]byte, 12<<20)}
+			conn.Write(big.toPacket(), protocol.GzipSize(1<<30))
+			time.Sleep(150 * time.Millisecond) // the writer has taken it and is blocked in the socket write
+			conn.Write(framePK(0, 16).toPacket(), protocol.GzipSize(1<<30))
+			g := hub.armAll("conn.write.before-enqueue", nil)
+			var mu sync.Mutex
+			returned, okN := 0, 0
+			for w := 0; w < W; w++ {
+				go func(w int) {
+					defer func() { recover() }()
+					err := conn.Write(framePK(w+2, 16).toPacket(), protocol.GzipSize(1<<30))
+					mu.Lock()
+					returned++
+					if err == nil {
+						okN++
+					}
+					mu.Unlock()
+				}(w)
+			}
+			parked := 0
+			for w := 0; w < W; w++ {
+				if !g.waitParked(2 * time.Second) {
+					break
+				}
+				parked++
+			}
+			atomic.StoreInt32(&g.spinN, int32(parked))
+			g.open()
+			ok := waitUntil(2*time.Second, func() bool { mu.Lock(); defer mu.Unlock(); return returned == W })
+			mu.Lock()
+			n, a := returned, okN
+			mu.Unlock()
+			if !ok {
+				r.violate(Violation{What: fmt.Sprintf("%d of %d Write calls racing for the last free queue slot did not return within 2 s while the peer was stalled (%d accepted): a full write queue must be an error, not a blocked caller", W-n, W, a), Case: cs})
+			}
+			r.st.Dist["c12.tcp.last-slot-race.accepted"] += a
+		}
+		hub.reset()
+		r.st.Evaluations++
+		r.count("c12.tcp.last-slot-race")
+		func() { defer func() { recover() }(); conn.Close(nil) }()
+		peer.shutdown()
+		if len(r.st.Violations) > 0 {
+			break
+		}
+	}
 }
